@@ -120,18 +120,19 @@ def segs : Str → Bool → Bool → List Str
 
 def parseparam (line : Str) : List Str := (segs line false false).map strip
 
-/-- `_parse_header`: `C43.parseHeader` with the fixed `_parseparam` (the decoding of the pieces is unchanged) -/
+/-- `_parse_header`: `C43.parseHeader` with the fixed `_parseparam` (the decoding of the pieces is unchanged: when
+    `decode_params` raises, the parameters are taken as written — `C43.literalParams`) -/
 def parseHeader (line : Str) : Except C43.Err (Str × List (Str × Str)) :=
   match parseparam line with
   | [] => .error (.uncaught "StopIteration")     -- unreachable: `segs` never returns []
   | key :: ps =>
     match C43.groupParams (C43.rawParams ps) {} with
-    | .error e => .error e
+    | .error _ => .ok (key, C43.literalParams (C43.rawParams ps))
     | .ok g =>
       let d0 : List (Str × Str) :=
         g.plain.foldl (fun d (n, v) => C43.dset n (C43.emailUnquote ([34] ++ C43.emailQuote v ++ [34])) d) []
-      if g.ext.any (fun (_, conts) => conts.any (fun c => c.1.isNone) && conts.any (fun c => c.1.isSome)) then
-        .error (.uncaught "TypeError")
+      if C43.mixedConts g.ext then
+        .ok (key, C43.literalParams (C43.rawParams ps))
       else
         match g.ext.foldlM (fun d (n, conts) => (C43.rfc2231Value conts).map (fun v => C43.dset n v d)) d0 with
         | .error e => .error e
